@@ -8,6 +8,7 @@ import (
 	"strings"
 
 	"github.com/echovault/sugardb/internal/constants"
+	"github.com/echovault/sugardb/internal/modules/sorted_set"
 	vr "github.com/echovault/sugardb/internal/verifrt"
 )
 
@@ -258,4 +259,62 @@ func encCmd(argv ...string) []byte {
 		out += "$" + strconv.Itoa(len(a)) + "\r\n" + a + "\r\n"
 	}
 	return []byte(out)
+}
+
+// Verif_C12_NumericRendering: values the server holds as numbers (hash fields and strings re-typed to
+// int / float64, sorted-set scores) are rendered into replies by several hand-written formatters; with
+// numbers whose renderings differ between formats (tiny, huge, negative, fractional) every reader still
+// sends exactly one well-formed value — the declared bulk length is the length of what follows.
+func Verif_C12_NumericRendering() {
+	s := verifServer()
+	k := "k"
+	ints := []int{0, -7, 9223372036854775807}
+	floats := []float64{1.5, 1e-7, 1e25, -0.00001, 123456789.125, -2.5e-9}
+	var argv []string
+	switch vr.Choose("type", 4) {
+	case 0: // hash with an integer, a float and a string field
+		verifPreset(s, 0, k, map[string]interface{}{
+			"i": ints[vr.Choose("int", len(ints))],
+			"f": floats[vr.Choose("float", len(floats))],
+			"s": "text",
+		})
+		argv = [][]string{
+			{"HGET", k, "f"}, {"HGET", k, "i"}, {"HMGET", k, "f", "i", "s", "nope"}, {"HVALS", k}, {"HGETALL", k},
+			{"HKEYS", k}, {"HSTRLEN", k, "f"}, {"HSTRLEN", k, "i"}, {"HRANDFIELD", k, "3", "WITHVALUES"},
+			{"HRANDFIELD", k, "-3", "WITHVALUES"}, {"HINCRBYFLOAT", k, "f", "0.5"}, {"HINCRBY", k, "f", "2"},
+			{"HINCRBYFLOAT", k, "i", "1e-7"}, {"HEXISTS", k, "f"}, {"HLEN", k},
+		}[vr.Choose("cmd", 15)]
+	case 1: // sorted set with fractional, tiny and huge scores
+		verifPreset(s, 0, k, ss17(floats[vr.Choose("float", len(floats))], floats[vr.Choose("float2", len(floats))]))
+		argv = [][]string{
+			{"ZSCORE", k, "a"}, {"ZMSCORE", k, "a", "b", "nope"}, {"ZRANGE", k, "-inf", "+inf", "BYSCORE", "WITHSCORES"},
+			{"ZRANK", k, "a", "WITHSCORES"}, {"ZREVRANK", k, "b", "WITHSCORES"}, {"ZPOPMIN", k, "2"}, {"ZPOPMAX", k},
+			{"ZMPOP", k, "MIN", "COUNT", "2"}, {"ZINCRBY", k, "0.25", "a"}, {"ZADD", k, "INCR", "1e-9", "a"},
+			{"ZUNION", k, "WITHSCORES"}, {"ZINTER", k, "WEIGHTS", "3", "WITHSCORES"}, {"ZDIFF", k, "nokey", "WITHSCORES"},
+			{"ZRANDMEMBER", k, "2", "WITHSCORES"}, {"ZRANDMEMBER", k, "-3", "WITHSCORES"},
+		}[vr.Choose("cmd", 15)]
+	case 2: // a string value the server keeps as float64
+		verifPreset(s, 0, k, floats[vr.Choose("float", len(floats))])
+		argv = [][]string{
+			{"GET", k}, {"MGET", k}, {"GETDEL", k}, {"GETEX", k}, {"STRLEN", k}, {"GETRANGE", k, "0", "-1"},
+			{"INCRBYFLOAT", k, "0.5"}, {"APPEND", k, "x"}, {"SET", k, "v", "GET"}, {"SUBSTR", k, "0", "2"},
+		}[vr.Choose("cmd", 10)]
+	case 3: // a string value the server keeps as int
+		verifPreset(s, 0, k, ints[vr.Choose("int", len(ints))])
+		argv = [][]string{
+			{"GET", k}, {"MGET", k}, {"GETDEL", k}, {"GETEX", k}, {"STRLEN", k}, {"GETRANGE", k, "0", "-1"},
+			{"INCRBYFLOAT", k, "0.5"}, {"APPEND", k, "x"}, {"SET", k, "v", "GET"}, {"INCR", k}, {"DECRBY", k, "3"},
+		}[vr.Choose("cmd", 11)]
+	}
+	reply, err, panicked := verifRun(s, argv...)
+	vr.Assert(!panicked, "C12.numeric.no_crash")
+	if !panicked && err == nil {
+		vr.Assert(vr.Decode(reply).OK, "C12.numeric.reply_is_one_wellformed_value")
+	}
+	vr.Reach("end")
+}
+
+// ss17: the sorted set {a: x, b: y}.
+func ss17(x, y float64) *sorted_set.SortedSet {
+	return sorted_set.NewSortedSet([]sorted_set.MemberParam{{Value: "a", Score: sorted_set.Score(x)}, {Value: "b", Score: sorted_set.Score(y)}})
 }
